@@ -1,0 +1,13 @@
+//go:build verif
+
+package document
+
+import bo "github.com/benoitkugler/webrender/html/boxes"
+
+// Read-only accessor used by the external verification harness (/verif):
+// it exposes the laid-out page box that a Page was built from, so that what is
+// drawn can be compared with what was laid out in the same run.
+// Compiled only with -tags verif.
+
+// VerifPageBox returns the page box of the page.
+func (p Page) VerifPageBox() *bo.PageBox { return p.pageBox }
